@@ -22,5 +22,5 @@ V.mk_varint_pack('C02')
 TRUSTED += V.LEMMAS
 
 from contracts import bounded_codec as B
-BOUNDED = [B.out_of_range_vints, B.decimal_exact, B.struct_probe]
+BOUNDED = [B.out_of_range_vints, B.decimal_exact, B.struct_probe, B.timestamp_encode_exact]
 EXPLANATION += '; bounded stand-ins (labelled, not proof): out-of-range vints must raise, DecimalType byte-exact, struct/hex conformance probes'
